@@ -102,6 +102,25 @@ def h_value(L, T, parts, checks):
     return tag
 
 
+def STRUCT_TEMPLATES(k=0):
+    """skeleton + one longer hole whose bytes range over a few structure characters"""
+    return [['pkg:t/', ('hole', 'h', 7 + k, b'/a'), '/n'],
+            ['pkg:t/a', ('hole', 'h', 5 + k, b'/%2fF'), 'b/n'],
+            ['pkg:t/n#', ('hole', 'h', 7 + k, b'/.a')],
+            ['pkg:t/n#a/', ('hole', 'h', 5 + k, b'/.%2eE')],
+            ['pkg:t/n?', ('hole', 'h', 7 + k, b'a=&A')],
+            ['pkg:t/', ('hole', 'h', 5 + k, b'a@?#/')]]
+
+
+def LONG_TEMPLATES():
+    """fields longer than a small string's inline capacity (23 bytes): a 22-byte concrete run and a 2-byte hole in every component"""
+    run = 'abcdefghijklmnopqrstuv'
+    H2 = ('hole', 'h', 2)
+    return [['pkg:t/' + run, H2], ['pkg:t/aaaaaaaaaa/bbbbbbbbbb/', H2, '/n'], ['pkg:t/n@' + run, H2], ['pkg:t/n?k=' + run, H2],
+            ['pkg:t/n#aaaaaaaaaa/bbbbbbbbbb/', H2], ['pkg:t/n?' + run, H2, '=v'], ['pkg:t/n?checksum=' + run + ':', H2],
+            ['pkg:t.' + run, ('hole', 'h', 1), '/n']]
+
+
 def parse_family(tier, checks, name_prefix='', kinds=('String', 'SmallString'), typed=True, depth=0):
     """the common input family: tail, slot templates (minimal and full context), adjacent pairs, typed contexts"""
     qs = []
@@ -134,6 +153,10 @@ def parse_family(tier, checks, name_prefix='', kinds=('String', 'SmallString'), 
             add(T, ['pkg:t/n?', ('hole', 'h', 1), '=v&', ('hole', 'g', 2), '=w'])
             if th:
                 add(T, ['pkg:t/n?a', ('hole', 'h', 2), '=v&a', ('hole', 'g', 2), '=w'])
+            # structure characters only, longer holes: runs of separators, dot segments, escapes of separators, repeated keys
+            k = 1 if th else 0
+            for parts in STRUCT_TEMPLATES(k) + LONG_TEMPLATES():
+                add(T, parts)
             for n in lens(5 if th else 4, 1):
                 add(T, ['pkg:t/n?checksum=', ('hole', 'h', n)])
             for n in lens(3 if th else 2, 1):
@@ -161,7 +184,7 @@ OUTSIDE = ['inputs with more free bytes than the listed holes / other skeletons'
            'internals of std, percent-encoding, hex, phf, unicase, smartstring (API-level models, validated by witness replay)']
 
 
-def h_built(L, T, ty, name, steps, checks):
+def h_built(L, T, ty, name, steps, checks, via='ctor'):
     """run a builder script whose arguments may be holes, then per-value obligations"""
     I = L.I
     def mat(x):
@@ -175,7 +198,7 @@ def h_built(L, T, ty, name, steps, checks):
     tyb, nm = mat(ty), mat(name)
     st = [(s[0],) + tuple(mat(a) for a in s[1:]) for s in steps]
     try:
-        p, tag = gen_build(L, T, tyb, nm, st)
+        p, tag = gen_build(L, T, tyb, nm, st, via)
         if p is None:
             return tag
         acc = accessors(I, T, p)
@@ -202,10 +225,13 @@ def build_family(tier, checks, kinds=('String', 'Purl'), name_prefix=''):
     th = tier == 'thorough'
     FULL = [('with_namespace', 'ns'), ('with_version', '1'), ('with_qualifier', 'k', 'v'), ('with_subpath', 's')]
 
-    def add(T, ty, name, steps):
-        qs.append(Query('%s%s %s' % (name_prefix, T, show_steps(ty, name, steps)), h_built,
-                        {'T': T, 'ty': ty, 'name': name, 'steps': steps, 'checks': checks},
-                        bound='builder script %s, ⟦n⟧ = every valid-UTF-8 byte string of exactly n bytes' % show_steps(ty, name, steps)))
+    def add(T, ty, name, steps, via='ctor'):
+        txt = show_steps(ty, name, steps)
+        if via != 'ctor':
+            txt = txt.replace('new(', 'GenericPurl::%s(' % via, 1)
+        qs.append(Query('%s%s %s' % (name_prefix, T, txt), h_built,
+                        {'T': T, 'ty': ty, 'name': name, 'steps': steps, 'checks': checks, 'via': via},
+                        bound='builder script %s, ⟦n⟧ = every valid-UTF-8 byte string of exactly n bytes' % txt))
     for T in kinds:
         ty = 't' if T != 'Purl' else 'npm'
         m = 3 if th else 2
@@ -213,6 +239,9 @@ def build_family(tier, checks, kinds=('String', 'Purl'), name_prefix=''):
             h = ('hole', 'h', n)
             add(T, ty, h, [])
             add(T, ty, h, FULL)
+            add(T, ty, h, [], via='new')
+            if n == m:
+                add(T, ty, h, FULL, via='builder')
             for meth in ('with_namespace', 'with_version', 'with_subpath'):
                 add(T, ty, 'n', [(meth, h)])
                 add(T, ty, 'n', [s for s in FULL if s[0] != meth] + [(meth, h)])
